@@ -156,6 +156,48 @@ theorem uri_keys_well_owned (hash : List Nat → Nat) (hinj : ∀ a b, hash a = 
   obtain ⟨p', hs', hp', he⟩ := hex.choose_spec
   exact ((toUri_injective _ _ _ _ hs hp hs' hp' (hinj _ _ he)).1).symm
 
+/-! ### Keys are the paths themselves (fix D26) -/
+
+/-- A numbering of byte strings (the registry model numbers its keys): `pathKey [] = 0`,
+`pathKey (b :: bs) = b + 1 + 257 * pathKey bs`. -/
+def pathKey : List Nat → Nat
+  | [] => 0
+  | b :: bs => b + 1 + 257 * pathKey bs
+
+theorem pathKey_injective : ∀ a b : List Nat, Bytes a → Bytes b → pathKey a = pathKey b → a = b
+  | [], [], _, _, _ => rfl
+  | [], y :: ys, _, _, h => by simp only [pathKey] at h; omega
+  | x :: xs, [], _, _, h => by simp only [pathKey] at h; omega
+  | x :: xs, y :: ys, ha, hb, h => by
+    simp only [pathKey] at h
+    have hx := ha x List.mem_cons_self
+    have hy := hb y List.mem_cons_self
+    have h1 : x = y := by omega
+    have h2 : pathKey xs = pathKey ys := by omega
+    rw [h1, pathKey_injective xs ys (fun b hb' => ha b (List.mem_cons_of_mem _ hb'))
+      (fun b hb' => hb b (List.mem_cons_of_mem _ hb')) h2]
+
+theorem toUri_bytes (s p : List Nat) (hs : Bytes s) (hp : Bytes p) : Bytes (toUri s p) := by
+  intro c hc
+  have := toUri_valid s p hs hp c hc
+  unfold uriPathByte unreserved at this
+  simp only [Bool.or_eq_true, Bool.and_eq_true, decide_eq_true_eq, beq_iff_eq] at this
+  omega
+
+/-- **path_keys_well_owned**: since fix D26 the handler key IS the request path (not a 64-bit hash of
+it), so every handler key has ONE owner for ALL service and message names, without any assumption
+about a hash function: the hypothesis `WellOwned` of the registry theorems is met unconditionally. -/
+theorem path_keys_well_owned :
+    ∃ owner : Nat → List Nat, ∀ s p, Bytes s → Bytes p → owner (pathKey (toUri s p)) = s := by
+  classical
+  refine ⟨fun k => if h : ∃ s p, Bytes s ∧ Bytes p ∧ k = pathKey (toUri s p) then h.choose else [], ?_⟩
+  intro s p hs hp
+  have hex : ∃ s' p', Bytes s' ∧ Bytes p' ∧ pathKey (toUri s p) = pathKey (toUri s' p') := ⟨s, p, hs, hp, rfl⟩
+  simp only [dif_pos hex]
+  obtain ⟨p', hs', hp', he⟩ := hex.choose_spec
+  have := pathKey_injective _ _ (toUri_bytes s p hs hp) (toUri_bytes _ _ hs' hp') he
+  exact ((toUri_injective _ _ _ _ hs hp hs' hp' this).1).symm
+
 /-! ### The tree before the fix (D15) -/
 
 /-- `gen<M1>` and `gen-M1-` got the same path: one handler entry for two services. -/
